@@ -38,8 +38,13 @@ SEdge == Sel("edge", <<>>, <<>>, <<>>)
 SRecSt(limit, stop, seq, cur) == Sel("recst", <<limit, stop>>, <<>>, <<seq, cur>>)
 
 IdxSeg(i) == <<48 + i>>                    \* decimal string of a one-digit index
-IsIdxSeg(seg) == Len(seg) = 1 /\ seg[1] >= 48 /\ seg[1] <= 57
-SegIdx(seg) == seg[1] - 48
+\* a list index as a path segment: canonical decimal digits.  Values are only ever compared with small list lengths and
+\* selector indices, so anything longer than three digits stands for "beyond every list" (TLC integers are 32 bits wide,
+\* the segments probed go beyond 2^64)
+IsIdxSeg(seg) == /\ Len(seg) >= 1 /\ \A i \in DOMAIN seg : seg[i] >= 48 /\ seg[i] <= 57
+                 /\ (Len(seg) = 1 \/ seg[1] # 48)
+SegIdx(seg) == IF Len(seg) > 3 THEN 1000000
+               ELSE LET F[i \in 0..Len(seg)] == IF i = 0 THEN 0 ELSE F[i - 1] * 10 + (seg[i] - 48) IN F[Len(seg)]
 
 \* children of a node as <<segment, child>> pairs in the node's own iteration order
 Children(n) ==
